@@ -7,7 +7,8 @@
 (*     relative deviation (1e-9 units) of f's parameters from the least-squares         *)
 (*     solution for f's stored data given the CURRENT parameters of its conditioners    *)
 (*     (measured with numpy.linalg.lstsq).                                              *)
-(*     The history is replayed through DepFitOps!FitCall; every event must match.       *)
+(*     The property is judged at the end of every round; whether the internals are a     *)
+(*     behaviour of DepFitOps!FitCall is reported as conformance.                         *)
 (*  kind = "fit": one record = one DependenceFunction.fit on a shape with bounds /      *)
 (*     constraints / weights; objective values are relative to the objective of the     *)
 (*     zero function, scaled by 1e9.                                                    *)
@@ -21,27 +22,50 @@ VARIABLE l
 PTol == 1000000      \* 1e-3 relative, units of 1e-9
 Fresh(G, s, f) == s.pv[f].kind = "fit" /\ \A c \in DepSet(G, f) : s.pv[f].conds[c] = s.pv[c]
 
-EventClauses(G, s, e, hasattrs) ==
+(* Property-level clauses per event.  The bookkeeping needs only the sequence of USER calls     *)
+(* (which function was given which data version), not the internal protocol:                    *)
+(*   RoundEndConsistent  once every function has been given data version d, every function      *)
+(*                       carries the least-squares solution for its data given the CURRENT       *)
+(*                       parameters of its conditioners ("fitted after all of those")            *)
+(*   Untouched           a function whose fit was never requested and that no fitted function    *)
+(*                       conditions keeps its start parameters                                   *)
+EventClauses(G, s, e) ==
     <<
-      <<"InternalFitSequence", s.log = e.internal>>,
-      <<"MayFitFlag", hasattrs => \A f \in FsOf(G) : s.mayFit[f] = e.mayfit[f]>>,
-      <<"FittedConditioners", hasattrs => \A f \in FsOf(G) : Cardinality(s.fc[f]) = e.nfc[f]>>,
-      <<"ParametersFresh", \A f \in FsOf(G) : s.pv[f].kind = "fit" => ((e.pdev[f] <= PTol) <=> Fresh(G, s, f))>>,
-      <<"Untouched", \A f \in FsOf(G) : s.pv[f].kind = "start" => e.atstart[f]>>,
-      <<"FittedAfterConditioners", (\A f \in FsOf(G) : s.xy[f] = e.d) => Consistent(G, s, e.d)>>
+      <<"FittedAfterConditioners",
+          (\A f \in FsOf(G) : s.xy[f] = e.d) => \A f \in FsOf(G) : e.pdev[f] <= PTol>>,
+      <<"Untouched", \A f \in FsOf(G) : s.xy[f] = 0 => e.atstart[f]>>
     >>
 
-RECURSIVE Replay(_, _, _, _, _, _)
-Replay(G, dc, s, evs, i, hasattrs) ==
+(* Conformance of the observed internals with the protocol model DepFitOps (internal _fit      *)
+(* cascade of each call, _may_fit, |_fitted_conditioners|, freshness after EVERY call) -         *)
+(* reported as CONFORMANT and counted in the evidence, NOT a verdict: another protocol that      *)
+(* meets the property is as good.                                                               *)
+EventConformant(G, s, e, hasattrs) ==
+    /\ s.log = e.internal
+    /\ (hasattrs => \A f \in FsOf(G) : s.mayFit[f] = e.mayfit[f] /\ Cardinality(s.fc[f]) = e.nfc[f])
+    /\ \A f \in FsOf(G) : s.pv[f].kind = "fit" => ((e.pdev[f] <= PTol) <=> Fresh(G, s, f))
+    /\ ((\A f \in FsOf(G) : s.xy[f] = e.d) => Consistent(G, s, e.d))
+
+RECURSIVE Replay(_, _, _, _, _)
+Replay(G, dc, s, evs, i) ==
     IF i > Len(evs) THEN <<>>
     ELSE LET e == evs[i]
              s2 == FitCall(G, dc, FALSE, [s EXCEPT !.log = <<>>], e.f, e.d)
-         IN Failing(EventClauses(G, s2, e, hasattrs)) \o Replay(G, dc, s2, evs, i + 1, hasattrs)
+         IN Failing(EventClauses(G, s2, e)) \o Replay(G, dc, s2, evs, i + 1)
+
+RECURSIVE Conformant(_, _, _, _, _, _)
+Conformant(G, dc, s, evs, i, hasattrs) ==
+    IF i > Len(evs) THEN TRUE
+    ELSE LET e == evs[i]
+             s2 == FitCall(G, dc, FALSE, [s EXCEPT !.log = <<>>], e.f, e.d)
+         IN EventConformant(G, s2, e, hasattrs) /\ Conformant(G, dc, s2, evs, i + 1, hasattrs)
 
 ProtoVerdict(r) ==
     LET G == GraphNamed(r.graph) IN
       IF ~TopoOk(G, r.decl) THEN <<"BadDeclarationOrder">>
-      ELSE Replay(G, r.decl, InitState(G), r.events, 1, r.hasattrs)
+      ELSE Replay(G, r.decl, InitState(G), r.events, 1)
+ProtoConformant(r) ==
+    LET G == GraphNamed(r.graph) IN TopoOk(G, r.decl) /\ Conformant(G, r.decl, InitState(G), r.events, 1, r.hasattrs)
 
 (* tolerances (units of 1e-9 of the zero-function objective):                            *)
 (*   curve_fit (TRF / LM, ftol=xtol=1e-8) and SLSQP (ftol=1e-6) stop within 1e-6 of the  *)
@@ -68,7 +92,8 @@ Verdict(r) == IF r.kind = "proto" THEN ProtoVerdict(r) ELSE Failing(FitClauses(r
 Init == l = 1
 Next == /\ l <= Len(TraceLog)
         /\ LET r == TraceLog[l] v == Verdict(r) IN
-             IF v = <<>> THEN TRUE ELSE PrintT(<<"VERDICT", r.id, v>>)
+             /\ (IF v = <<>> THEN TRUE ELSE PrintT(<<"VERDICT", r.id, v>>))
+             /\ (IF r.kind = "proto" /\ ProtoConformant(r) THEN PrintT(<<"CONFORMANT", r.id>>) ELSE TRUE)
         /\ l' = l + 1
 Spec == Init /\ [][Next]_l
 Consumed == l = Len(TraceLog) + 1 => PrintT(<<"CONSUMED", l - 1>>)
